@@ -44,8 +44,51 @@ def wonVotes (n : Node1 N) : Bool := decide (N < 2 * (List.finRange N).countP (f
 def lostVotes (n : Node1 N) : Bool :=
   decide ((List.finRange N).countP (fun j => n.votes j != some false) < N / 2 + 1)
 
+/-- `tracker.StateType` -/
+inductive PState | probe | replicate | snapshot
+deriving DecidableEq, Repr
+
+/-- the fields of `tracker.Progress` that the two transport reports touch (`Inflights` as its count), in etcd's own index
+    space (the arithmetic below involves no log).  `Node1` keeps only `Match` of it (`matchI`, the one field the safety
+    argument reads: commit decisions and the heartbeat's commit); the lock-step hands the observed record before the
+    report to these functions and compares their result with the observed record after it, field by field. -/
+structure Prog where
+  state : PState
+  matchI : Nat
+  next : Nat
+  pendingSnapshot : Nat
+  probeSent : Bool
+  inflights : Nat
+deriving DecidableEq, Repr
+
+/-- `Progress.ResetState` -/
+def Prog.resetState (p : Prog) (st : PState) : Prog :=
+  { p with probeSent := false, pendingSnapshot := 0, state := st, inflights := 0 }
+
+/-- `Progress.BecomeProbe`: coming from StateSnapshot the probe starts after the snapshot that was SENT
+    (`max(Match+1, PendingSnapshot+1)`), otherwise at `Match+1`; `Match` itself is not touched -/
+def Prog.becomeProbe (p : Prog) : Prog :=
+  if p.state = .snapshot then { p.resetState .probe with next := max (p.matchI + 1) (p.pendingSnapshot + 1) }
+  else { p.resetState .probe with next := p.matchI + 1 }
+
+/-- `stepLeader`, `case pb.MsgSnapStatus` (what `RawNode.ReportSnapshot` steps): only for a follower in StateSnapshot;
+    `SnapshotFinish` → `BecomeProbe`; `SnapshotFailure` → `PendingSnapshot = 0` FIRST, then `BecomeProbe` (probe from
+    `Match+1`); in both cases `ProbeSent = true` (the next append waits for a heartbeat response) -/
+def Prog.snapStatus (p : Prog) (failed : Bool) : Prog :=
+  if p.state = .snapshot then
+    if failed then { ({ p with pendingSnapshot := 0 } : Prog).becomeProbe with probeSent := true }
+    else { p.becomeProbe with probeSent := true }
+  else p
+
+/-- `stepLeader`, `case pb.MsgUnreachable` (what `RawNode.ReportUnreachable` steps): a replicating follower is probed again -/
+def Prog.unreachable (p : Prog) : Prog := if p.state = .replicate then p.becomeProbe else p
+
 inductive Input (N : Nat)
 | hup | prop (v : Nat) | selfAck | beat | restart | recv (m : Msg1 N)
+/-- `RawNode.ReportSnapshot(src, SnapshotFinish | SnapshotFailure)`: the local message MsgSnapStatus -/
+| snapStatus (src : Fin N) (failed : Bool)
+/-- `RawNode.ReportUnreachable(src)`: the local message MsgUnreachable -/
+| unreachable (src : Fin N)
 
 def Msg1.term : Msg1 N → Nat
 | .vote t .. => t | .voteResp t .. => t | .app t .. => t | .appResp t .. => t | .hb t .. => t | .snap t .. => t
@@ -94,10 +137,22 @@ def handle (i : Fin N) (n : Node1 N) : Input N → Node1 N × List (Msg1 N)
 | .selfAck => if n.role = .leader then (maybeCommit (ackN n i n.log.length), []) else (n, [])
 | .beat => (n, [])
 | .restart => (stepDownN n, [])
+-- the two transport reports move only the leader's `Progress` bookkeeping for `src` (`reportProg`): nothing of the node's
+-- safety projection - in particular NOT `matchI src` - changes and nothing is answered
+| .snapStatus _ _ => (n, [])
+| .unreachable _ => (n, [])
 | .recv m =>
     if m.term < n.term then (n, [])
     else if n.term < m.term then handleSame i (bump n m.term m.leadHint) m
     else handleSame i n m
+
+/-- the `Progress` record of `src` after a report input on a node with role `n.role`: only a leader steps the two local
+    messages into `stepLeader` (`stepFollower` / `stepCandidate` have no case for them); every other input is outside
+    this function (the lock-step compares `Progress` around the report events only) -/
+def reportProg (n : Node1 N) (p : Prog) : Input N → Prog
+| .snapStatus _ failed => if n.role = .leader then p.snapStatus failed else p
+| .unreachable _ => if n.role = .leader then p.unreachable else p
+| _ => p
 
 /-- what a leader may emit besides the responses computed by `handle`: any slice of its log, any heartbeat -/
 def leaderOut (n : Node1 N) (i : Fin N) (m : Msg1 N) : Prop :=
@@ -292,6 +347,8 @@ theorem handle_outcome (s : Sys1 N) (i : Fin N) (inp : Input N) (hen : enabled s
       simpa only [upd1_same] using this
     · exact Outcome.stay s i
   | beat => exact Outcome.stay s i
+  | snapStatus src failed => exact Outcome.stay s i
+  | unreachable src => exact Outcome.stay s i
   | restart =>
     exact outcome_step (Step1.stepDown s i) (fun _ h => h) (fun _ h => by cases h)
   | recv m =>
